@@ -8,6 +8,9 @@ CLAIMED = {
  "C14": ("bounded-exhaustive enumeration of filter configurations x endpoints on the real FilterConfig (explicit-state, reference-model oracle)",
          "Every filter configuration of a 107k-element alphabet (mode x port/address/subnet sub-filters x sides x boundary ranges) is evaluated on every same-family endpoint pair and port pair of a boundary alphabet, on each of the three filter.rs copies, against the boolean function written from the statement; the whole finite product is enumerated, nothing is sampled.",
          "Trusts the 40-line reference function; scope is the stated alphabets (ports incl. 0/65535 and both neighbours of every range bound, prefix lengths 0/8/24/31/32 and 0/64/127/128).", "DESIGN.md §4 C14"),
+ "C04": ("bounded-exhaustive enumeration of generated ClientHellos (all permutations of all subsets, GREASE at every position) on the real parser and packet pipelines, reference-model oracle",
+         "ClientHellos are generated from structured descriptions: 7 legacy versions x 8 supported_versions lists x every permutation of every subset (<=5 quick, 6 thorough) of 6 suites incl. 2 GREASE, 98..150-element lists; every permutation of every subset (<=4 quick, 5 thorough) of 17 extensions incl. 2 GREASE extensions, SNI, ALPN, sigalgs, groups; sigalg orders x ALPN lists x SNI. Each is parsed by the real code and JA4/JA4_r/JA4_o/JA4_ro, ja4_a/b/c and the separately reported fields are compared with a reference JA4 computed from the description; a sub-family goes through the stateless packet processor, the stateful TLS pipeline (1 and 2 segments, IPv4/IPv6) and the unified analyzer.",
+         "Trusts the 60-line reference JA4 and sha2 (self-tested against the FIPS vector). ALPN values are restricted to alphanumeric first/last bytes, supported_versions lists always hold a known non-GREASE version, DTLS/QUIC are out of scope; raw (unhashed) rendering of an empty list is not compared.", "DESIGN.md §4 C04"),
 }
 NOT_YET = {}
 props = [json.loads(l) for l in open(os.path.join(V, "properties.jsonl"))]
